@@ -54,11 +54,9 @@ def gen_scenario(rng):
         # included, and a later class listing it as a second or third base merges it)
         K.append({"bases": bases, "mixin": is_mixin, "defs": own, "extend": bool(own) and not is_mixin and rng.random() < (0.6 if bases else 0.35),
                   # @extend_super written on a later same-named definition of the body as well / instead
-                  # (only where no earlier class has a definition of the same signature: `__prepare__` registers the plain
-                  # functions of the bases on the merged function, where they shadow a *marked* definition of the same
-                  # signature — a marked definition is mixed in, not registered; the model has one marker per body)
-                  "extend_later": [j for j in range(1, len(own)) if bases and rng.random() < 0.35
-                                   and not any(defs[own[j]]["params"][0]["ty"] == d0["params"][0]["ty"] for d0 in defs[: own[0]])]})
+                  # (a marker on a later same-named definition changes nothing: that definition is mixed in on top of
+                  # everything the body has accumulated, which is where a registration would put it as well)
+                  "extend_later": [j for j in range(1, len(own)) if bases and rng.random() < 0.35]})
     calls = []
     for _ in range(rng.randint(4, 14)):
         calls.append([rng.randrange(ncls), rng.randrange(len(args))])
@@ -205,10 +203,15 @@ def translate(sc, Ks):
             ovlds = [v for v in values if v[0] == "node"]
             mix = [v for v in ovlds[1:] if v[2]]
             if mix:
-                pre = create([ovlds[0][1]] + [m[1] for m in mix])
+                # the plain functions of the bases are mixed in as fresh functions of their own, after the flagged ones
+                # (since the `fix:` for finding D42; they used to be registered on the merged function)
+                plain_nodes = []
                 for v in values:
                     if v[0] == "plain":
-                        ops.append(["reg", pre, v[1]])
+                        n = create([])
+                        ops.append(["reg", n, v[1]])
+                        plain_nodes.append(n)
+                pre = create([ovlds[0][1]] + [m[1] for m in mix] + plain_nodes)
         if pre is not None:
             if own and k["extend"]:
                 v = create([])
